@@ -34,6 +34,9 @@ func (SMEnabled) Name() string {
 type UnAckQueue struct {
 	Uslice []*UnAckedStz
 	sync.RWMutex
+	// lastId is the sequence number given to the last pushed stanza. It keeps increasing when the queue is
+	// emptied, because the server counts all the stanzas it handled during the session.
+	lastId int
 }
 type UnAckedStz struct {
 	Id  int
@@ -109,8 +112,8 @@ func (uaq *UnAckQueue) Push(s Queueable) error {
 	if uaq == nil {
 		return nil
 	}
-	pushIdx := 1
-	if len(uaq.Uslice) != 0 {
+	pushIdx := uaq.lastId + 1
+	if len(uaq.Uslice) != 0 && uaq.Uslice[len(uaq.Uslice)-1].Id >= pushIdx {
 		pushIdx = uaq.Uslice[len(uaq.Uslice)-1].Id + 1
 	}
 
@@ -125,6 +128,7 @@ func (uaq *UnAckQueue) Push(s Queueable) error {
 	}
 
 	uaq.Uslice = append(uaq.Uslice, &e)
+	uaq.lastId = pushIdx
 
 	return nil
 }
